@@ -411,6 +411,7 @@ func (o *Oracle) beforeDeleteRange(inc *Inc, min, max uint64) {
 		// differs from the one sent: some AppendEntries that was handed to this incarnation and is
 		// not answered yet carries an entry for index lo with another term than the stored one
 		justified := false
+		var justTerm uint64 // term of the leader whose request justifies the truncation
 		for i := len(w.net.msgs) - 1; i >= 0 && i > len(w.net.msgs)-600 && !justified; i-- {
 			m := w.net.msgs[i]
 			if m.Dst != inc.node.idx || m.Kind != "AE" || m.DelivSeq == 0 || m.HandSeq != 0 || m.DstInc != inc.n {
@@ -424,6 +425,7 @@ func (o *Oracle) beforeDeleteRange(inc *Inc, min, max uint64) {
 				if e.Index == lo {
 					if old, ok := d.ent(lo); ok && old.Term != e.Term {
 						justified = true
+						justTerm = m.Term
 					}
 				}
 			}
@@ -437,7 +439,15 @@ func (o *Oracle) beforeDeleteRange(inc *Inc, min, max uint64) {
 			for i := lo; i <= hi; i++ {
 				if g := o.ghost[i]; g != nil {
 					if old, ok := d.ent(i); ok && g.ent.same(old) && i > snapIdx {
-						w.violate("C03", "C03/committed-entry-truncated", "%s truncates [%d,%d] which removes committed entry %d (term %d)", inc.tag, lo, hi, i, old.Term)
+						if justified && justTerm < g.cterm {
+							// a leader of a term before the one in which the entry was committed does not
+							// know the entry and may overwrite this server's copy; the committing majority
+							// keeps it, and no leader of a later term can lack it (that is what C03 forbids)
+							w.stats.probe("committed_entry_copy_truncated_on_behalf_of_an_earlier_term_leader")
+							break
+						}
+						w.violate("C03", "C03/committed-entry-truncated", "%s truncates [%d,%d] which removes committed entry %d (term %d), reported committed by %s via %s at seq %d",
+							inc.tag, lo, hi, i, old.Term, g.by, g.how, g.seq)
 						break
 					}
 				}
